@@ -9,7 +9,7 @@ their state, then (1) runs an unrelated case B and (2) perturbs the PduConfig ob
 itself had constructed for A (the caller's inputs), and checks after each step that the state of
 A's objects is unchanged.  No method of A's objects is called in between, so lazy caches cannot
 change legitimately."""
-import collections, enum, sys
+import collections, enum, sys, time
 
 _PRIM = (int, float, str, bytes, bool, type(None))
 
@@ -259,3 +259,137 @@ def api_coverage(files):
             if total:
                 out[cname] = {"public_callables": total, "never_entered_in_probe_sample": sorted(missing)}
     return out
+
+
+# ------------------------------------------------------------------ concurrent callers
+def thread_probe(fn, run_impl, canon, cases, budget_s, n_threads=4):
+    """The library's entry points keep no state between calls, so calls made by several threads at once
+    (a commanding thread and a telemetry thread, say) on their own objects yield what the same calls
+    yield one after the other.  `cases` are run sequentially first (twice: a case whose sequential
+    result is not stable is dropped), then by n_threads threads at once with a tiny switch interval.
+    Returns None or (kind, message, case)."""
+    import threading
+    base = []
+    for c in cases:
+        r1, r2 = canon(run_impl(fn, c[0], c[1])), canon(run_impl(fn, c[0], c[1]))
+        if r1 == r2:
+            base.append((c, r1))
+    if len(base) < 2:
+        return None
+    bad = []
+    deadline = time.time() + budget_s
+    def worker(t):
+        n = len(base)
+        j = t * (n // n_threads + 1)
+        while not bad and time.time() < deadline:
+            c, want = base[j % n]
+            j += 1
+            got = canon(run_impl(fn, c[0], c[1]))
+            if got != want:
+                bad.append((c, want, got))
+                return
+    old = sys.getswitchinterval()
+    sys.setswitchinterval(1e-6)
+    try:
+        ths = [threading.Thread(target=worker, args=(t,)) for t in range(n_threads)]
+        for th in ths:
+            th.start()
+        for th in ths:
+            th.join()
+    finally:
+        sys.setswitchinterval(old)
+    if not bad:
+        return None
+    c, want, got = bad[0]
+    # still stable when run alone?  (otherwise the case is not deterministic and says nothing)
+    if canon(run_impl(fn, c[0], c[1])) != want or canon(run_impl(fn, c[0], c[1])) != want:
+        # a call that went wrong under threads and STAYS wrong afterwards: process-wide state was corrupted
+        return ("thread-interference", "op %d yields %s when run alone before, but %s after %d threads ran the library "
+                "concurrently (process-wide state left behind)" % (c[0], str(want)[:120], str(got)[:120], n_threads), c)
+    return ("thread-interference", "op %d yields %s when run alone but %s while %d threads run other calls of the library "
+            "at the same time: calls share mutable state" % (c[0], str(want)[:160], str(got)[:160], n_threads), c)
+
+
+# ------------------------------------------------------------------ zero-copy callers (memoryview input)
+import builtins as _bi
+
+
+def adapter_modules(op):
+    from harness.props import xcut
+    mod = xcut.module(op // 100)
+    out = [mod]
+    for p_ in getattr(mod, "PARTS", []):
+        if p_.OP_RANGE[0] <= op <= p_.OP_RANGE[1]:
+            out.append(p_)
+    return [m for m in out if m is not None]
+
+
+class _Views:
+    """stands in for the name `bytes` in the adapter modules: every octet string the adapter builds becomes a
+    memoryview of its own writable bytearray (the recv_into() idiom)"""
+    def __init__(self):
+        self.backing = []
+
+    def __call__(self, x=b""):
+        b = bytearray(_bi.bytes(x))
+        self.backing.append(b)
+        return memoryview(b)
+
+    def __enter__(self):
+        return self
+
+    def install(self, mods):
+        self.saved = [(m, m.__dict__.get("bytes")) for m in mods]
+        for m in mods:
+            m.__dict__["bytes"] = self
+
+    def uninstall(self):
+        for m, old in self.saved:
+            if old is None:
+                m.__dict__.pop("bytes", None)
+            else:
+                m.__dict__["bytes"] = old
+
+
+def view_probe(fn, run_impl, canon, case):
+    """For calls of the ops listed in harness/mv_ops.json (the ops on which the UNCHANGED library gives the same
+    answer for memoryview and bytes arguments on every sampled case, measured by tools/gen_mv_ops.py):
+    a call that succeeds on bytes and ALSO succeeds on a memoryview of the same octets returns the same answer
+    (an exception on the memoryview is a refusal of the argument type and is not judged), and the objects it
+    handed out do not change when the caller overwrites its buffer afterwards.  Returns None or (kind, msg)."""
+    op, a = case
+    r_b = run_impl(fn, op, a)
+    if r_b[0][0] != 0:
+        return None
+    v = _Views()
+    v.install(adapter_modules(op))
+    holder = {}
+    def call(o_, a_):
+        holder["r"] = fn(o_, a_)
+        return holder["r"]
+    try:
+        rec = run_recorded(call, op, a)
+    finally:
+        v.uninstall()
+    if "r" not in holder:
+        return None
+    try:
+        r_v = [[0]] + [list(map(int, x)) for x in holder["r"]]
+    except Exception:
+        return None
+    if canon(r_v) != canon(r_b):
+        return ("memoryview-input-differs", "op %d succeeds on a memoryview of the same octets but answers %s instead of %s"
+                % (op, str(r_v)[:160], str(r_b)[:160]))
+    before = {i: snap(o) for i, o in rec.objs.items()}
+    for b in v.backing:
+        for i in range(len(b)):
+            b[i] ^= 0xFF
+    for i, o in rec.objs.items():
+        try:
+            now = snap(o)
+        except Exception:
+            continue
+        if now != before[i]:
+            return ("input-buffer-aliased", "a %s handed out by op %d changed when the caller overwrote the buffer it had passed in "
+                    "(as a memoryview): the object keeps a view of the caller's buffer" % (type(o).__name__, op))
+    return None
